@@ -169,6 +169,8 @@ def check_case(ck, case, ans, stats):
     stats["covered_full"] = stats.get("covered_full", 0) + (1 if ans.get("covered_full") else 0)
     if ans.get("covered_full") and ans.get("n_metric_filters", 0) > 0:
         stats["covered_full_mf"] = stats.get("covered_full_mf", 0) + 1
+    stats.setdefault("why", {})
+    stats["why"][ans.get("why", "?")] = stats["why"].get(ans.get("why", "?"), 0) + 1
     stats["covered_raw"] = stats.get("covered_raw", 0) + (1 if ans.get("covered_raw") else 0)
     stats["ungrouped_cases"] = stats.get("ungrouped_cases", 0) + (1 if q.get("ungrouped") else 0)
     if len(table["rows"]) >= 2 and (q["metrics"] or q["dims"]):
@@ -291,7 +293,7 @@ def inline_measures(ck, rng, n, stats):
 
 
 def run(ck: Check):
-    ck.prove("SideVerif.Properties.C01", ["SideVerif.Proofs.Fusion", "SideVerif.Proofs.SpecFlat"])
+    ck.prove("SideVerif.Properties.C01", ["SideVerif.Proofs.Fusion", "SideVerif.Proofs.SpecFlat", "SideVerif.Proofs.Having"])
     n = 2500 if ck.tier == "thorough" else 130
     cases = make_cases(ck, n)
     from collections import Counter as C
@@ -324,6 +326,7 @@ def run(ck: Check):
         "outcome_distribution": dict(stats["outcomes"]), "aggregations": dict(aggs), "disagreements": stats["disagree"], "cases_inside_theorem_C01_grouped": stats.get("covered", 0),
         "cases_inside_theorem_C01_grouped_result": stats.get("covered_full", 0),
         "of_which_with_metric_value_filters": stats.get("covered_full_mf", 0),
+        "coverage_of_C01_grouped_by_reason": stats.get("why", {}),
         "cases_inside_theorem_C01_ungrouped": stats.get("covered_raw", 0), "ungrouped_cases": stats.get("ungrouped_cases", 0),
         "traces_validated_against_impl": len(cases),
         "samples": [strip(cases[1]), strip(cases[-1])],
